@@ -95,7 +95,7 @@ impl Layer {
 }
 
 /// key material for one protocol: `sym` for local, `sk`/`pk` for public
-#[derive(Clone, Debug, Serialize, Deserialize)]
+#[derive(Clone, Debug, Serialize, Deserialize, PartialEq)]
 pub struct KeyMat {
     #[serde(with = "hexarr")]
     pub sym: [u8; 32],
@@ -572,9 +572,23 @@ pub enum PStep {
     Check(Claim),
     /// register a harness validator on the live parser (validate_claim, or extend_validation_claims on GenericParser)
     Validate(VSpec),
+    /// while this parser object stays alive, ANOTHER parser object (any protocol, any layer) is created, configured, used
+    /// and dropped on the same thread; its outcomes go to `nested_outs_take()`
+    Nested(Box<NestedSession>),
+}
+
+#[derive(Clone, Debug, Serialize, Deserialize, PartialEq)]
+pub struct NestedSession {
+    pub p: P,
+    pub batteries: bool,
+    pub keys: Vec<KeyMat>,
+    pub cfg: ParserCfg,
+    pub steps: Vec<PStep>,
 }
 
 thread_local! {
+    /// outcomes of the nested sessions (PStep::Nested) run on this thread since the last nested_outs_take()
+    static NESTED_OUTS: RefCell<Vec<Vec<Out<Value>>>> = const { RefCell::new(Vec::new()) };
     /// validator call log of each Parse step of the last session() on this thread
     static SESSION_LOGS: RefCell<Vec<Vec<(String, Value)>>> = const { RefCell::new(Vec::new()) };
     /// call log of harness validators: (key, value seen)
@@ -602,6 +616,18 @@ static HV: fn(&str, &Value) -> Result<(), PasetoClaimError> = harness_validator;
 
 pub fn vlog_take() -> Vec<(String, Value)> {
     VLOG.with(|l| std::mem::take(&mut *l.borrow_mut()))
+}
+pub fn nested_outs_take() -> Vec<Vec<Out<Value>>> {
+    NESTED_OUTS.with(|l| std::mem::take(&mut *l.borrow_mut()))
+}
+fn run_nested(n: &NestedSession) {
+    // the nested session uses the same thread-local harness tables: put the outer session's back afterwards
+    let saved_vt = VTABLE.with(|t| t.borrow().clone());
+    let saved_logs = session_logs_take();
+    let outs = session(n.p, n.batteries, &n.keys, &n.cfg, &n.steps);
+    NESTED_OUTS.with(|x| x.borrow_mut().push(outs));
+    VTABLE.with(|t| *t.borrow_mut() = saved_vt);
+    SESSION_LOGS.with(|l| *l.borrow_mut() = saved_logs);
 }
 pub fn session_logs_take() -> Vec<Vec<(String, Value)>> {
     SESSION_LOGS.with(|l| std::mem::take(&mut *l.borrow_mut()))
@@ -1236,6 +1262,7 @@ macro_rules! impl_proto {
                                         let one: &'static ParserCfg = Box::leak(Box::new(ParserCfg { validators: vec![v.clone()], ..Default::default() }));
                                         Self::configure_batteries(&mut p, one).map_err(HErr::ClaimCtor)?;
                                     }
+                                    PStep::Nested(n) => run_nested(n),
                                     PStep::Parse { token, key } => {
                                         let k = &ks[*key % ks.len()];
                                         let _ = vlog_take();
@@ -1265,6 +1292,7 @@ macro_rules! impl_proto {
                                         let one: &'static ParserCfg = Box::leak(Box::new(ParserCfg { validators: vec![v.clone()], ..Default::default() }));
                                         Self::configure_generic(&mut p, one).map_err(HErr::ClaimCtor)?;
                                     }
+                                    PStep::Nested(n) => run_nested(n),
                                     PStep::Parse { token, key } => {
                                         let k = &ks[*key % ks.len()];
                                         let _ = vlog_take();
